@@ -351,7 +351,9 @@ class ExchangeContext(DisplacementContext):
     def revert_state(self) -> None:
         """Revert the context to the last saved state."""
         if len(self._added_indices) != 0:
-            del self.atoms[self._added_indices]
+            # added atoms are appended, so they are the trailing atoms whatever was
+            # deleted before or after them in the same trial
+            del self.atoms[len(self.atoms) - len(self._added_indices) :]
         if len(self._deleted_indices) != 0:
             if len(self._deleted_atoms) == 0:
                 raise ValueError("Last deleted atoms was not saved.")
